@@ -745,24 +745,47 @@ class SeedPhase(SubCheck):
             e.cover("two trios in one family")
         if shape["nchrom"] == 2:
             e.cover("two chromosomes")
+        base, other, iterated, orders = self.sym_pair(e, shape, sc)
+        if iterated:
+            e.cover("a set was iterated in a solver-chosen order")
+        e.check(base["<exception>"] is None, "harness: the command raised under the stubs: %s" % base["<exception>"], None)
+        for tag, f in (("recombination event written", "recomb.tsv"), ("genotype change written", "gtchanges.tsv"), ("read list written", "reads.tsv")):
+            if len((base.get(f) or "").splitlines()) > 1:
+                e.cover(tag)
+        differing = [k for k in sorted(base) if base[k] != other.get(k)]
         if impl == "real":
-            return self.run_real(e, shape, sc)
+            return self.confirm_real(e, shape, sc, differing, orders)
+        for k in differing:
+            e.check(False, "output %s depends on the iteration order of a set (hash seed)" % k,
+                    lambda k=k: dict(file=k, kind=_diff_kind(base[k], other.get(k)) if k.endswith(".tsv") else "content", canonical=str(base[k])[-600:], other=str(other.get(k))[-600:]))
+
+    def sym_pair(self, e, shape, sc):
+        """Run the command under the stubs twice - canonical set order, then the order chosen through e.perm - and return what
+        it wrote.  With the concrete engine of a replay the same code re-executes the witness' order."""
         if not hasattr(self, "_world"):
             self._world = self._load_world()
         W = self._world
         pm, phase, vcf, pedmod, core = W["pm"], W["phase"], W["vcf"], W["ped"], self.core_model
-        cur = {}
-        PedStub, DPStub, _ = _ped_stub_classes(core, cur)
+        PedStub, DPStub, _ = _ped_stub_classes(core, {})
         Reader, Input = _PedReaderStubs.make(sc, vcf, core)
         phase.VcfReader, phase.PhasedInputReader, phase.Pedigree, phase.PedigreeDPTable = Reader, Input, PedStub, DPStub
         nondet.EXTRA_SENSITIVE[:] = [lambda x: hasattr(x, "reference_allele"), nondet.id_hashed]
+        orders = []
+        if not hasattr(pedmod.PedReader, "_c16_samples"):
+            pedmod.PedReader._c16_samples = pedmod.PedReader.samples
+        orig = pedmod.PedReader._c16_samples
+
+        def samples(s):
+            r = orig(s)
+            orders.append(list(r))
+            return r
+
+        pedmod.PedReader.samples = samples
 
         def run(hook):
             fs = MemFS()
-            fs.files["ped.txt"] = sc.ped_text
-            ped_open = lambda path, *a, **k: io.StringIO(fs.files[str(path)])
             phase.__dict__["__builtins__"]["open"] = fs.open
-            pedmod.open = ped_open  # module global shadows the builtin for PedReader only
+            pedmod.open = lambda path, *a, **k: io.StringIO(sc.ped_text)  # module global shadows the builtin for PedReader only
             pm.FS.clear()
             pm.FS["in.vcf"] = sc.doc(with_pl=False)
             sink = pm.MemFile()
@@ -776,7 +799,6 @@ class SeedPhase(SubCheck):
             finally:
                 nondet.ORDER_HOOK = None
             res = dict(fs.files)
-            res.pop("ped.txt", None)
             res["out.vcf"] = repr(sink.doc)
             res["<exception>"] = exc
             return res
@@ -789,50 +811,64 @@ class SeedPhase(SubCheck):
             return [items[i] for i in e.perm("ord%d" % cnt[0], len(items))]
 
         other = run(hook)
-        if cnt[0]:
-            e.cover("a set was iterated in a solver-chosen order")
-        e.check(base["<exception>"] is None, "harness: run_whatshap raised under the stubs: %s" % base["<exception>"], None)
-        if len((base.get("recomb.tsv") or "").splitlines()) > 1:
-            e.cover("recombination event written")
-        if len((base.get("gtchanges.tsv") or "").splitlines()) > 1:
-            e.cover("genotype change written")
-        if len((base.get("reads.tsv") or "").splitlines()) > 1:
-            e.cover("read list written")
-        for k in sorted(base):
-            e.check(base[k] == other.get(k), "output %s depends on the iteration order of a set (hash seed)" % k,
-                    lambda k=k: dict(file=k, kind=_diff_kind(base[k], other.get(k)) if k.endswith(".tsv") else "content", canonical=str(base[k])[-600:], other=str(other.get(k))[-600:]))
+        return base, other, cnt[0], orders
 
-    def run_real(self, e, shape, sc):
-        key = sc.key() + repr(shape["use_ped"])
+    REAL_FILES = ("out.vcf", "reads.tsv", "recomb.tsv", "gtchanges.tsv")
+
+    def real_argv(self, shape, sc, vcf_path, ped_path, bam, out):
+        argv = ["phase", "--no-reference", "--ped", ped_path, "--output-read-list", os.path.join(out, "reads.tsv"), "--recombination-list", os.path.join(out, "recomb.tsv"),
+                "--changed-genotype-list", os.path.join(out, "gtchanges.tsv"), "-o", os.path.join(out, "out.vcf")]
+        if shape["use_ped"]:
+            argv.append("--use-ped-samples")
+        if sc.distrust:
+            argv.append("--distrust-genotypes")
+        return argv + [vcf_path, bam]
+
+    def real_results(self, shape, sc):
+        """the real CLI on the materialised input, once per PYTHONHASHSEED in REAL_SEEDS (cached per input)"""
+        key = sc.key() + repr(sorted(shape.items()))
         if key not in self._real_cache:
-            tmp = tempfile.mkdtemp(prefix="c16ph-", dir="/var/tmp")
+            tmp = tempfile.mkdtemp(prefix="c16-%s-" % self.name, dir="/var/tmp")
             try:
                 vcf_path, ped_path, bam = sc.write_real_files(tmp)
                 results = []
                 for seed in REAL_SEEDS:
                     out = os.path.join(tmp, "o%s" % seed)
                     os.makedirs(out)
-                    argv = ["phase", "--no-reference", "--ped", ped_path, "--output-read-list", os.path.join(out, "reads.tsv"), "--recombination-list", os.path.join(out, "recomb.tsv"),
-                            "--changed-genotype-list", os.path.join(out, "gtchanges.tsv"), "-o", os.path.join(out, "out.vcf")]
-                    if shape["use_ped"]:
-                        argv.append("--use-ped-samples")
-                    if sc.distrust:
-                        argv.append("--distrust-genotypes")
-                    r = _real_cli(argv + [vcf_path, bam], seed, tmp)
-                    res = {"<rc>": r.returncode}
+                    r = _real_cli(self.real_argv(shape, sc, vcf_path, ped_path, bam, out), seed, tmp)
+                    res = {"<rc>": r.returncode, "<stderr>": r.stderr[-400:] if r.returncode else ""}
                     for f in sorted(os.listdir(out)):
                         res[f] = _strip_cmdline(open(os.path.join(out, f)).read())
-                    if r.returncode != 0:
-                        res["<stderr>"] = r.stderr[-300:]
+                    # the order PedReader.samples() has under this seed (to pin a path's pair of orders to two real runs)
+                    code = "import sys; sys.path.insert(0, %r); from whatshap.pedigree import PedReader; print(','.join(PedReader(%r).samples()))" % (REPO, ped_path)
+                    env = dict(os.environ, PYTHONHASHSEED=seed)
+                    res["<samples>"] = subprocess.run([sys.executable, "-c", code], stdout=subprocess.PIPE, stderr=subprocess.PIPE, text=True, env=env).stdout.strip().split(",")
                     results.append(res)
                 self._real_cache[key] = results
             finally:
                 shutil.rmtree(tmp, ignore_errors=True)
-        results = self._real_cache[key]
-        e.check(results[0]["<rc>"] == 0, "harness: the real `whatshap phase` failed on the materialised input: %s" % results[0].get("<stderr>"), None)
-        for k in sorted(results[0]):
-            for r in results[1:]:
-                e.check(results[0][k] == r.get(k), "output %s depends on the iteration order of a set (hash seed)" % k, None)
+        return self._real_cache[key]
+
+    def confirm_real(self, e, shape, sc, differing, orders):
+        """Replay.  `differing`: the outputs that differ between the two orders of this path in the stub world.
+        * a differing output must show a hash-seed dependence of the REAL command (two of the seeds disagree on that file) -
+          otherwise the counter-example is not confirmed;
+        * a path without differences: the real runs of all seeds agree, or - where the real command is seed dependent (known
+          finding) - the two runs whose PedReader.samples() order equals this path's two orders agree (skipped when no tested
+          seed realises them)."""
+        results = self.real_results(shape, sc)
+        e.check(results[0]["<rc>"] == 0, "harness: the real command failed on the materialised input: %s" % results[0].get("<stderr>"), None)
+        dep = {k: any(results[0].get(k) != r.get(k) for r in results[1:]) for k in self.REAL_FILES + ("<rc>",)}
+        for k in differing:
+            kk = k if k in dep else "<rc>"
+            e.check(not dep.get(kk), "output %s depends on the iteration order of a set (hash seed)" % k, None)
+        if differing or not any(dep.values()):
+            return
+        if shape.get("use_ped") and len(orders) == 2:
+            pair = [[r for r in results if r["<samples>"] == o] for o in orders]
+            if pair[0] and pair[1]:
+                for k in self.REAL_FILES:
+                    e.check(pair[0][0].get(k) == pair[1][0].get(k), "output %s differs between the two real runs that realise this path's orders" % k, None)
 
     def classify(self, shape, v):
         info = v.get("info") or {}
